@@ -6,6 +6,7 @@ stdin: lines `case <id>` (reset) or `<op> ;; <observed output>`.
 both end with `summary ...` lines (counts per output kind) on stderr-free stdout prefix `#`.
 -/
 import SwimVerif.Model.ConduitMon
+import SwimVerif.Model.TimeoutCoord
 
 open SwimVerif
 
@@ -39,7 +40,22 @@ def conduitMachine : Machine where
       | some op, some o => m.step op o
       | _, _ => (m, some "unparsable")
 
-def machines : List (String × Machine) := [("c12", conduitMachine)]
+def coordMachine : Machine where
+  σ := Option Coord.St
+  init := none
+  step := fun s line =>
+    match words line with
+    | ["new", n] => match n.toNat? with
+      | some n => if 2 ≤ n ∧ n ≤ 8 then (some (Coord.init n), "ok") else (s, "bad-op")
+      | none => (s, "bad-op")
+    | _ => match s with
+      | some st => let r := Coord.apiLine st line; (some r.1, r.2)
+      | none => (s, "bad-op")
+  μ := Coord.Mon
+  minit := {}
+  mstep := fun m line out => m.step line out
+
+def machines : List (String × Machine) := [("c12", conduitMachine), ("c17", coordMachine)]
 
 def bump (k : String) : List (String × Nat) → List (String × Nat)
   | [] => [(k, 1)]
